@@ -112,6 +112,23 @@ pub fn finalize(chk: Check, agg: &Agg) -> i32 {
         ));
     }
 
+    // write out one witness of every kind first (kind = signature up to its second field)
+    let kind_of = |sig: &str| sig.split('|').take(2).collect::<Vec<_>>().join("|");
+    let mut seen_kinds: std::collections::BTreeMap<String, usize> = Default::default();
+    let mut keyed: Vec<(usize, usize)> = all
+        .iter()
+        .enumerate()
+        .map(|(i, v)| {
+            let n = seen_kinds.entry(kind_of(&v.0)).or_insert(0);
+            *n += 1;
+            (*n, i)
+        })
+        .collect();
+    keyed.sort();
+    let all: Vec<(String, String, Value)> = keyed.into_iter().map(|(_, i)| all[i].clone()).collect();
+    let mut kinds_summary: Vec<String> = seen_kinds.iter().map(|(k, n)| format!("{k} x{n}")).collect();
+    kinds_summary.truncate(20);
+
     let mut new_viol = 0usize;
     let mut known_hits = 0usize;
     let mut printed_known = std::collections::BTreeSet::new();
@@ -143,7 +160,7 @@ pub fn finalize(chk: Check, agg: &Agg) -> i32 {
         }
     }
     if new_viol > 8 {
-        println!("  ... {} further violations not written out", new_viol - 8);
+        println!("  ... {} further violations not written out; kinds: {}", new_viol - 8, kinds_summary.join(", "));
     }
 
     // inconclusive conditions
